@@ -44,6 +44,31 @@ PROPS["C07"] = dict(
     jobs=[dict(name="e3::frame_depth_balance", fn=jobs_e3.run_depth_balance)],
 )
 
+# --------------------------------------------------------------------------- C20 / C21
+_HS_FUNCS = ["<WrapDatabaseRef<T> as Database>, <DatabaseComponents<S,BH> as Database/DatabaseRef> (crates/primitives/src/db.rs, db/components.rs)",
+             "<CacheDB<ExtDB> as Database/DatabaseRef> (crates/revm/src/db/in_memory_db.rs)", "<State<DB> as Database> (crates/revm/src/db/states/state.rs)",
+             "EvmContext::{make_create_frame, make_eofcreate_frame} (argument handed to JournaledState::create_account_checkpoint)"]
+_HS_ASSUME = ["an impl block without its own has_storage/has_storage_ref inherits the trait default `Ok(false)` (Rust semantics)",
+              "a has_storage body that calls the wrapped source's has_storage* is taken to return that answer (not re-verified beyond the call being present)",
+              "z3 4.8.12 and cvc5 1.0 agree; every sat answer is replayed on the real types by the native tool (wrapped source answering true)"]
+PROPS["C20"] = dict(
+    functions=_HS_FUNCS[:3],
+    bounds="the has_storage query through each of the six (layer, trait) pairs, for every answer of the wrapped source (symbolic Bool)",
+    outside="basic / code_by_hash / storage / block_hash answers of the caching layers after commit histories, block-hash pruning in State "
+            "(hash-map backed: not encodable, see DESIGN §2); &mut T / Box<T> / &T / Arc<T> forwarding is generated by auto_impl and not re-checked",
+    assumptions=_HS_ASSUME,
+    jobs=[dict(name="e3::has_storage_forwarding", fn=jobs_e3.run_has_storage)],
+)
+PROPS["C21"] = dict(
+    functions=_HS_FUNCS,
+    bounds="as C20 for the six database layers; plus the data flow of the `address_has_storage` argument of create_account_checkpoint in both create paths "
+           "(resolved through Try::branch / map_err / copies to <DB as Database>::has_storage(created_address))",
+    outside="the collision guard inside create_account_checkpoint (code hash / nonce / storage disjunction) and `nothing changed at the target`, gas consumed "
+            "by the failed create (journal + hash maps: not encodable); create transactions through Evm::transact",
+    assumptions=_HS_ASSUME,
+    jobs=[dict(name="e3::has_storage_forwarding", fn=jobs_e3.run_has_storage)],
+)
+
 # --------------------------------------------------------------------------- C22
 PROPS["C22"] = dict(
     functions=["revm::Handler::{pop_handle_register, create_handle_generic, modify_spec_id} (crates/revm/src/handler.rs)"],
@@ -191,6 +216,20 @@ CLAIMS = {
         technique="SMT path search (z3+cvc5) over the MIR control-flow graph with callee depth summaries; native replay of candidate paths",
         engine="smt-mir",
         design_ref="DESIGN.md §5 C07"),
+    "C20": dict(
+        text="For every database layer of the crate the has_storage answer is derived from the MIR of its trait impl (own body that reaches the wrapped source, or the "
+             "inherited constant default) and compared by z3/cvc5 with the wrapped source's answer for all answers; a difference is replayed on the real types.",
+        note="Partial: only the has-storage query is decided (the one query the layers are known to drop); cached reads after commit histories need hash maps and are outside. "
+             "Five layers currently answer `false` regardless of the wrapped data: recorded in known_findings.txt.",
+        technique="MIR impl scan + SMT equivalence query (z3+cvc5) per database layer; native replay on the real wrapper types",
+        engine="smt-mir", design_ref="DESIGN.md §5 C20"),
+    "C21": dict(
+        text="The storage-collision input of contract creation is followed from both create paths back to <DB as Database>::has_storage(created_address) (MIR data flow, SMT "
+             "equivalence), and each database layer's has_storage answer is compared with the data it wraps (as C20).",
+        note="Partial: the guard inside create_account_checkpoint and the no-change/gas effects of a collision are outside (journal + hash maps). "
+             "EIP-7610 is blind to storage held behind DatabaseComponents, CacheDB and State: recorded in known_findings.txt.",
+        technique="MIR data-flow resolution + SMT equivalence query (z3+cvc5); native replay on the real wrapper types",
+        engine="smt-mir", design_ref="DESIGN.md §5 C21"),
     "C22": dict(
         text="For each of the three handler rebuild paths the MIR data flow of the reward argument passed to Handler::mainnet* is resolved and the question "
              "`can the rebuilt handler's reward switch differ from the current one` is put to z3 and cvc5 (one query per call site, all call sites of the "
@@ -229,9 +268,15 @@ CLAIMS = {
         engine="kani-cbmc + smt-mir",
         design_ref="DESIGN.md §5 C32"),
 }
-SMT_SERVES = {"C32", "C07", "C22"}
+SMT_SERVES = {"C32", "C07", "C22", "C20", "C21"}
 
 # --------------------------------------------------------------------------- not applicable (reason shown in MANIFEST.json)
 NOT_APPLICABLE = {
     "C01": "whole-transaction equivalence with the execution specification needs symbolic execution of interpreter + call loop + journal + hash maps against a reference EVM; a single journaled transfer+revert already exhausts CBMC (DESIGN §2), and no reference implementation exists to encode. Its kernels are claimed under C02-C05, C12-C14.",
 }
+
+
+# --------------------------------------------------------------------------- fragments written per property (lib/fragments/REGISTRY_*.py)
+import glob as _glob, os as _os
+for _f in sorted(_glob.glob(_os.path.join(_os.path.dirname(_os.path.abspath(__file__)), "fragments", "REGISTRY_*.py"))):
+    exec(compile(open(_f).read(), _f, "exec"))
